@@ -111,6 +111,7 @@ def rule_pair(ctx):
         loop = cc.loops[-1][1] if cc.loops else None
         muts = slice_mutations(tr)
         pre, post = [], []
+        outside = []
         for e in muts:
             same_loop = (e.loops[-1][1] is loop) if (e.loops and loop is not None) else (not e.loops and loop is None)
             if e.kind == "call" and e.name == "swap_with_slice" and len(e.args) == 1 and isinstance(e.args[0], Slice):
@@ -118,7 +119,10 @@ def rule_pair(ctx):
                 res.instance("%s : swap %s <-> %s guard=%s" % (key, e.recv.key(), e.args[0].key(), [g for _, g in gkey(e)]))
                 res.sample({"fn": key, "swap": sorted(op[1]), "guard": [g for _, g in gkey(e)], "side": "pre" if e.order < cc.order else "post"})
                 if not same_loop:
-                    res.violate("%s : swap-outside-iteration" % key, "buffer swap outside the fold iteration that calls the closure", fn_loc(fn, e.node["ln"]))
+                    # a swap outside the iteration that calls the closure belongs to another protocol than "exchange before the
+                    # fit, exchange back after it" (a carried arrangement that is restored once after the loop): whether that
+                    # protocol restores the buffers is not what this rule models
+                    outside.append(e)
                     continue
                 (pre if e.order < cc.order else post).append(op)
             else:
@@ -126,6 +130,9 @@ def rule_pair(ctx):
                 res.violate("%s : unclassified-mutation:%s" % (key, what),
                             "raw buffer of records/targets is mutated by `%s`, an idiom this rule cannot pair (fail closed)" % what,
                             fn_loc(fn, e.node["ln"]))
+        if outside:
+            res.undecided("%s : swap-outside-iteration" % key, "buffer swaps outside the fold iteration that calls the closure: another restoration protocol than the per-iteration exchange, not modelled (fail closed)", fn_loc(fn, outside[0].node["ln"]))
+            continue
         if not pre:
             res.undecided("%s : no-permutation" % key, "no in-place permutation found before the closure call", fn_loc(fn))
         # pairing: per storage root, the post sequence must be the reverse of the pre sequence
@@ -617,17 +624,20 @@ def rule_err(ctx):
                 if okc:
                     res.ok()
                 else:
-                    res.violate("%s : fit-not-collected" % key, "per-fold fit results are not collected into a Result returned by the fold closure", fn_loc(fn, src.node["ln"]))
+                    # not finding the idiom `parameters.iter().map(|p| p.fit(train)).collect::<Result<..>>()` is not evidence
+                    # of a swallowed error (a helper with `?` in a loop does the same): the positive evidence is a Result
+                    # consumed by unwrap / ok / unwrap_or above
+                    res.undecided("%s : fit-not-collected" % key, "per-fold fit results were not found collected into a Result returned by the fold closure (fail closed)", fn_loc(fn, src.node["ln"]))
         if any(t == "cparam:models" or "cparam:models" in t or "proj:0(cparam" in t for t in tkeys):
             res.ok()
             res.instance("%s : `?` on the per-fold fit results" % key)
         else:
-            res.violate("%s : models-not-propagated" % key, "no `?` on the per-fold fit results inside the evaluation closure", fn_loc(fn))
+            res.undecided("%s : models-not-propagated" % key, "no `?` on the per-fold fit results found inside an evaluation closure (fail closed)", fn_loc(fn))
         if any("call:collect" in t and "call:iter_fold" in t for t in tkeys):
             res.ok()
             res.instance("%s : `?` on the collected per-fold evaluations" % key)
         else:
-            res.violate("%s : folds-not-propagated" % key, "no `?` on the collected per-fold evaluations", fn_loc(fn))
+            res.undecided("%s : folds-not-propagated" % key, "no `?` on collected per-fold evaluations found (fail closed)", fn_loc(fn))
     return res.finish(3)
 
 
